@@ -311,8 +311,9 @@ PROPS["C18"] = {
 
 PROPS["C19"] = {
     "legs": [rapid("det", "pdistinct", "TestC19Det", 4, 20000, 16, 300000),
-             plain("stat", "pdistinct", "TestC19Stat", solo=True, shards={"quick": 1, "thorough": 4})],
-    "rule": "The counter seeds itself from crypto/rand, so no run is bit-reproducible; the deterministic clauses hold "
+             plain("stat", "pdistinct", "TestC19Stat", solo=True, shards={"quick": 1, "thorough": 4}),
+             plain("reuse", "pdistinct", "TestC19Reuse")],
+    "rule": "leg reuse: one counter is run 24 times on the same stream (D distinct values, D > 20*size and not of the form Len*2^k) with Reset between the runs; if all 24 runs return the same Count the mean over repeated runs is stuck away from D (runs through Reset are not independent) - for independent runs and sizes >= 16 the probability of that is below 1e-15; non-trivial = the runs gave at least two different counts. The counter seeds itself from crypto/rand, so no run is bit-reproducible; the deterministic clauses hold "
             "with probability 1 and are checked on every run, the unbiasedness clause is statistical.  leg det: a case "
             "is (size, reps, ops) with ops[i] >= 0 = Add(value) and -1 = Reset; size from {2,3,4,8,16,64} (75%) or "
             "uniform 2..256; a third of the streams are drawn element by element (<= 300 ops over a domain of <= "
